@@ -13,11 +13,14 @@ pub struct Outcome {
     pub out: String,
     /// None = property oracle holds (or does not apply); Some(clause) = fails
     pub oracle: Option<String>,
+    /// false: the property does not pin this answer as a function of the request (e.g. it depends on a hash order
+    /// the property leaves open), so it is not compared when the request is executed again
+    pub pinned: bool,
 }
 
 impl Outcome {
     pub fn new(out: String) -> Self {
-        Outcome { out, oracle: None }
+        Outcome { out, oracle: None, pinned: true }
     }
     pub fn check(&mut self, cond: bool, clause: &str) {
         if !cond && self.oracle.is_none() {
@@ -145,12 +148,12 @@ impl Ctx {
     }
 
     pub fn case(&mut self, op: &str, args: &[u64]) {
-        let out = self.case_checked(op, args, None);
+        let (out, pinned) = self.case_checked(op, args, None);
         if self.again_every == 0 {
             return;
         }
         // reservoir of earlier requests (small ones only) with the answers they got
-        if args.len() <= 600 {
+        if args.len() <= 600 && pinned {
             self.again_state = self.again_state.wrapping_mul(6364136223846793005).wrapping_add(1442695040888963407);
             if self.past.len() < 48 {
                 self.past.push((op.to_string(), args.to_vec(), out));
@@ -179,7 +182,7 @@ impl Ctx {
     }
 
     /// `earlier`: the answer the same request got earlier in this run (must be reproduced)
-    fn case_checked(&mut self, op: &str, args: &[u64], earlier: Option<String>) -> String {
+    fn case_checked(&mut self, op: &str, args: &[u64], earlier: Option<String>) -> (String, bool) {
         let mut line = String::from(op);
         for a in args {
             line.push(' ');
@@ -203,6 +206,7 @@ impl Ctx {
         let exec = self.exec;
         let res = catch_unwind(AssertUnwindSafe(|| exec(op, args)));
         *self.current.lock().unwrap() = outer.map(|(_, l)| (Instant::now(), l));
+        let pinned = matches!(&res, Ok(Ok(o)) if o.pinned);
         let (out, orc) = match res {
             Ok(Ok(o)) => (o.out, o.oracle),
             Ok(Err(e)) => (format!("bad-request {e}"), None),
@@ -236,7 +240,7 @@ impl Ctx {
             }
         }
         self.n += 1;
-        out
+        (out, pinned)
     }
 
     pub fn finish(mut self, dir: &str) {
